@@ -23,8 +23,9 @@ ASSUMPTIONS = ["attach_to_group is exercised with reference_columns=None only (i
                "observed pandas behaviour, modelled in add_rows and validated by the correspondence",
                "group in/out-of-service and group_res_* are checked by the oracle only (they act on group_element_index)"]
 TRUSTED = ["the python set model of the oracle (props/c27.py SetModel)"]
-ETS = ["load", "sgen", "line"]
+ETS = ["load", "sgen", "line", "switch"]
 ECODE = {e: i for i, e in enumerate(ETS)}
+INS = ["load", "sgen", "line"]          # tables with an in_service column
 
 
 def zz(x):
@@ -56,7 +57,8 @@ def observe(net):
                 mm.append(int(m))
         rows.append([int(g.index[pos]), ECODE.get(str(g.element_type.values[pos]), 99), mm, rcs])
     tabs = [[[int(i), ncode(n)] for i, n in zip(net[e].index, net[e]["name"].values)] for e in ETS]
-    return {"grp": rows, "tabs": tabs}
+    lsw = [[int(i), int(e)] for i, e, et in zip(net.switch.index, net.switch.element.values, net.switch.et.values) if et == "l"]
+    return {"grp": rows, "tabs": tabs, "lsw": lsw}
 
 
 def members(net, gids):
@@ -76,7 +78,8 @@ def st_term(st):
     rc = ["RNone", "RNaN", "RName"]
     g = cq.lst(["(Build_grow %s %s %s %s)" % (zz(r[0]), cq.nat(r[1]), zl(r[2]), rc[r[3]]) for r in st["grp"]])
     t = cq.lst([cq.lst(["(%s, %s)" % (zz(a), zz(b)) for a, b in tab]) for tab in st["tabs"]])
-    return "(Build_st %s (mk_tab %s))" % (g, t)
+    l = cq.lst(["(%s, %s)" % (zz(a), zz(b)) for a, b in st["lsw"]])
+    return "(Build_st %s (mk_tab %s) %s)" % (g, t, l)
 
 
 def op_term(op):
@@ -148,6 +151,11 @@ class SetModel:
             for (g, e) in list(self.m):
                 if e == op[1]:
                     self.m[(g, e)] -= set(op[2])
+            if op[1] == "line":          # the line switches of a dropped line are dropped with it
+                gone = {sw for sw, l in st0["lsw"] if l in op[2]}
+                for (g, e) in list(self.m):
+                    if e == "switch":
+                        self.m[(g, e)] -= gone
         elif o == "reindex":
             lk = dict((a, b) for a, b in op[2])
             for (g, e) in list(self.m):
@@ -166,7 +174,7 @@ def gen_net(rng):
     net = pp.create_empty_network()
     b = [pp.create_bus(net, 20.0) for _ in range(3)]
     pp.create_ext_grid(net, b[0])
-    for e in ETS:
+    for e in INS:
         n = rng.randint(3, 5)
         idx = rng.sample(range(12), n)
         for k, i in enumerate(idx):
@@ -178,10 +186,17 @@ def gen_net(rng):
             else:
                 a, c = rng.sample(b, 2)
                 pp.create_line_from_parameters(net, a, c, 0.5, 0.25, 0.125, 0, 0.5, index=i, name=nm)
-    # tables without an in_service column that can be group members
-    li = int(net.line.index[0])
-    pp.create_switch(net, int(net.line.from_bus.at[li]), li, et="l", index=rng.randrange(20))
-    pp.create_switch(net, b[0], b[1], et="b", index=20 + rng.randrange(5))
+    # switches: group members without an in_service column; line switches share the index range of the lines
+    used = set()
+    k = 0
+    for li in net.line.index:
+        for col in ("from_bus", "to_bus"):
+            if rng.random() < 0.6:
+                i = rng.choice([x for x in range(12) if x not in used])
+                used.add(i)
+                pp.create_switch(net, int(net.line.at[li, col]), int(li), et="l", index=i, name="n%d" % (k if rng.random() > 0.2 else 0))
+                k += 1
+    pp.create_switch(net, b[0], b[1], et="b", index=20 + rng.randrange(5), name="n%d" % k)
     pp.create_measurement(net, "v", "bus", 1.0, 0.01, b[0], index=rng.randrange(20))
     return net
 
@@ -218,6 +233,11 @@ def gen_op(rng, net, sm):
     if r < 0.65:
         return ["detach", et, some(ids + [66]), None if rng.random() < 0.5 else some(gids + [55], 1, 2)]
     if r < 0.8:
+        if rng.random() < 0.4:            # a line that carries line switches (they are dropped with it)
+            with_sw = sorted({int(e) for e, t in zip(net.switch.element.values, net.switch.et.values)
+                              if t == "l" and e in net.line.index})
+            if with_sw:
+                return ["drop_el", "line", some(with_sw, 1, 2)]
         return ["drop_el", et, some(ids, 1, 2) + ([99] if rng.random() < 0.05 else [])]
     if r < 0.95:
         sel = ids if rng.random() < 0.6 else some(ids, 1, len(ids))
@@ -236,7 +256,8 @@ def gen_op(rng, net, sm):
 def classify(op, st0, g, e, what=""):
     """finding id for a set-model mismatch at (g, e) after op on st0"""
     rows = [r for r in st0["grp"] if r[0] == g and r[1] == ECODE[e]]
-    if op[0] in ("detach", "drop_el") and op[1] == e and len(rows) == 1 and rows[0][3] == 2:
+    if op[0] in ("detach", "drop_el") and (op[1] == e or (op[0] == "drop_el" and op[1] == "line" and e == "switch")) and \
+            len(rows) == 1 and rows[0][3] == 2:
         names = [n for _, n in st0["tabs"][ECODE[e]]]
         if len(set(names)) != len(names):
             return "C27-detach-duplicate-reference-values"
@@ -289,7 +310,7 @@ def _step(ctx, cases, net, sm, op):
                 if variant == "regrouped":
                     ets = [e for e in ETS if ms_all[e]]
                     parts = [(e, sorted(ms_all[e])) for e in ets]
-                    if len(w2.switch):
+                    if len(w2.switch) and not ms_all["switch"]:
                         parts.append(("switch", [int(w2.switch.index[0])]))
                     if len(w2.measurement):
                         parts.append(("measurement", [int(w2.measurement.index[0])]))
@@ -301,16 +322,16 @@ def _step(ctx, cases, net, sm, op):
                     except Exception:
                         continue                      # e.g. a member that does not exist: not the subject here
                     ctx.count("inservice_oracle_order:" + ",".join(p_[0][:2] for p_ in parts))
-                before = {e: w2[e].in_service.copy() for e in ETS}
+                before = {e: w2[e].in_service.copy() for e in INS}
                 try:
                     set_group_out_of_service(w2, tgt)
-                    for e in ETS:
+                    for e in INS:
                         for i in w2[e].index:
                             exp = False if i in ms_all[e] else bool(before[e].at[i])
                             if bool(w2[e].in_service.at[i]) != exp:
                                 bad.append((g, e, "set_group_out_of_service (%s) changed/kept in_service of %s %d wrongly" % (variant, e, i)))
                     set_group_in_service(w2, tgt)
-                    for e in ETS:
+                    for e in INS:
                         for i in w2[e].index:
                             exp = True if i in ms_all[e] else bool(before[e].at[i])
                             if bool(w2[e].in_service.at[i]) != exp:
